@@ -592,11 +592,20 @@ fn stream_use(rep: &mut Report, drv: &mut Driver, rng: &mut Rng, n: usize) -> Re
             _ => sib.push(X::leaf("ellipse", &[("id", "t"), ("cxy", &format!("{} {}", h(rng, -10, 20), h(rng, -10, 20))), ("rxy", &format!("{} {}", 2 + rng.below(6), 1 + rng.below(4)))])),
         }
         let mut ua: Vec<(String, String)> = vec![("id".into(), "u".into()), ("href".into(), "#t".into())];
-        if rng.chance(3, 4) { ua.push(("x".into(), h(rng, -40, 40))); }
-        if rng.chance(3, 4) { ua.push(("y".into(), h(rng, -40, 40))); }
-        sib.push(X::El { name: "use".into(), attrs: ua, kids: None });
         let mut last = "u";
-        if rng.chance(1, 3) { sib.push(X::leaf("use", &[("id", "v"), ("href", "#u"), ("x", &h(rng, -20, 20))])); last = "v"; }
+        if rng.chance(1, 3) {
+            // a <reuse> with an id whose own position refers to a sibling: written before that sibling it fails
+            // first and is attempted again - until then its id must not stand for a half-made instance
+            ua.push(("xy".into(), format!("#b{}", rng.pick(&["|h 5", "|v 2", "@br 1 1", "|H 3"]))));
+            sib.push(X::El { name: "reuse".into(), attrs: ua, kids: None });
+            sib.push(X::leaf("rect", &[("id", "b"), ("xy", &format!("{} {}", h(rng, 40, 90), h(rng, 40, 90))), ("wh", "4 2")]));
+            corr.tally("instance=reuse-with-forward-position");
+        } else {
+            if rng.chance(3, 4) { ua.push(("x".into(), h(rng, -40, 40))); }
+            if rng.chance(3, 4) { ua.push(("y".into(), h(rng, -40, 40))); }
+            sib.push(X::El { name: "use".into(), attrs: ua, kids: None });
+            if rng.chance(1, 3) { sib.push(X::leaf("use", &[("id", "v"), ("href", "#u"), ("x", &h(rng, -20, 20))])); last = "v"; }
+        }
         let spec = |rng: &mut Rng, id: &str| -> String { format!("#{id}{}", rng.pick(&["|h 4", "|v 2", "@br 1 1", "|H", "@c", "|V 3", "@tl"])) };
         sib.push(X::leaf("rect", &[("id", "r"), ("xy", &spec(rng, last)), ("wh", "6 4")]));
         if rng.chance(1, 2) { sib.push(X::leaf("line", &[("id", "k"), ("start", &format!("#{last}")), ("end", "#r")])); }
